@@ -109,7 +109,8 @@ class HippoClientProtocol(asyncio.DatagramProtocol):
                 self.session.message_handler.handle(message)
         except:
             LOG.exception("Failed in region message handler")
-        region.message_handler.handle(message)
+        if should_handle:
+            region.message_handler.handle(message)
 
 
 class HippoClientRegion(BaseClientRegion):
